@@ -698,6 +698,31 @@ func c11Real(c *Ctx) error {
 			c.R.Add(h.Finding{Stage: st.Name, Kind: "fail", What: "embedded content is not what its own minifier produces (or, on failure, not the original payload)", Input: key, Impl: h.Q([]byte(got)), Model: h.Q([]byte(want))})
 		}
 	}
+	// CSS escapes inside a quoted data URI belong to the host syntax: the payload is what the CSS string denotes
+	for _, fc := range []struct{ doc, want string }{
+		{`a{b:url('data:text/plain,a\'b c')}`, "a'b c"},
+		{`a{b:url("data:text/plain,say \"hi\" (x)")}`, `say "hi" (x)`},
+		{`a{b:url('data:text/plain,a\\b')}`, `a\b`},
+		{`a{b:url(data:text/plain\,a%20b)}`, ""},
+	} {
+		m := reg()
+		out, err := m.String("text/css", fc.doc)
+		key := fmt.Sprintf("text/css host doc=%q (CSS escapes inside the data URI)", fc.doc)
+		st.Count(key, true)
+		if err != nil {
+			c.R.Add(h.Finding{Stage: st.Name, Kind: "fail", What: "outer call failed: " + err.Error(), Input: key})
+			continue
+		}
+		if fc.want == "" {
+			if out != fc.doc {
+				c.R.Add(h.Finding{Stage: st.Name, Kind: "fail", What: "an escaped unquoted data URI must be left alone", Input: key, Impl: h.Q([]byte(out))})
+			}
+			continue
+		}
+		if got, ok := c11ExtractDataURI(out); !ok || got != fc.want {
+			c.R.Add(h.Finding{Stage: st.Name, Kind: "fail", What: "payload of a data URI written with CSS escapes changed", Input: key, Impl: h.Q([]byte(out)), Model: h.Q([]byte(fc.want))})
+		}
+	}
 	st.End()
 	return nil
 }
